@@ -220,7 +220,7 @@ func init() {
 	// timers never fire unless a harness drives them (no concurrency semantics)
 	reg("time.After", func(fr *frame, fn *ssa.Function, args []value) value {
 		fr.in.noteAssumption("virtual time: time.After/NewTimer channels are ready immediately (the requested duration is observable only through stubs)")
-		return &hchan{cap: 1, buf: []value{fr.in.zero(fn.Signature.Results().At(0).Type().Underlying().(*types.Chan).Elem())}}
+		return &hchan{cap: 1, timer: true, buf: []value{fr.in.zero(fn.Signature.Results().At(0).Type().Underlying().(*types.Chan).Elem())}}
 	})
 	reg("time.NewTimer", func(fr *frame, fn *ssa.Function, args []value) value {
 		in := fr.in
@@ -229,7 +229,7 @@ func init() {
 		st := in.zero(tt).(structure)
 		fr.in.noteAssumption("virtual time: time.After/NewTimer channels are ready immediately (the requested duration is observable only through stubs)")
 		ct := under(tt).(*types.Struct).Field(fieldIndex(tt, "C")).Type().Underlying().(*types.Chan).Elem()
-		st[fieldIndex(tt, "C")] = &hchan{cap: 1, buf: []value{fr.in.zero(ct)}}
+		st[fieldIndex(tt, "C")] = &hchan{cap: 1, timer: true, buf: []value{fr.in.zero(ct)}}
 		*p = st
 		return p
 	})
